@@ -34,6 +34,11 @@ def _flip(b, bit):
     return bytes(m)
 
 
+CONFIGS.append(dict(code="111-22-333", ios_id="decc6fa3-de3e-41c9-adba-ef7409821bfc", acc_id=None, acc_id_bytes=bytes.fromhex("aabbccddeeff"), with_auth=True))  # raw 6-byte id: not UTF-8
+CONFIGS.append(dict(code="111-22-333", ios_id="decc6fa3-de3e-41c9-adba-ef7409821bfc", acc_id=None, acc_id_bytes="Küche".encode("latin-1"), with_auth=True))
+N_BASE = len(CONFIGS)
+
+
 def _mined():
     import json
     import os
@@ -50,7 +55,8 @@ for _m in _mined():
 
 def _run(cfg, style, seed):
     c = CONFIGS[cfg]
-    return SetupRun(f"{seed}|{cfg}", style, code=c["code"], ios_id=c["ios_id"], acc_id=c["acc_id"].encode(), with_auth=c["with_auth"], srp=c.get("srp"))
+    acc_id = c["acc_id"].encode() if c.get("acc_id") is not None else c["acc_id_bytes"]
+    return SetupRun(f"{seed}|{cfg}", style, code=c["code"], ios_id=c["ios_id"], acc_id=acc_id, with_auth=c["with_auth"], srp=c.get("srp"))
 
 
 def classify_m6(wire, acc: hap.SetupAccessory, honest_wire):
@@ -104,6 +110,8 @@ def case_setup(p):
         if run.m1.get(hap.T_STATE) != b"\x01" or run.m1.get(hap.T_METHOD) != (b"\x01" if CONFIGS[cfg]["with_auth"] else b"\x00"):
             return [("m1-malformed", {**det, "m1": run.m1})]
         items = acc.m2()
+        if fault == "m2-error-extra":
+            return must_raise(run.feed_m2(tlv8.encode(items + [(hap.T_ERROR, bytes(arg))])), f"m2-with-error-item-accepted:{bytes(arg).hex() or 'empty'}")
         if fault == "m2-omit":
             items = [i for i in items if i[0] != arg]
             return must_raise(run.feed_m2(tlv8.encode(items)), f"m2-without-field-accepted:{arg}")
@@ -153,6 +161,8 @@ def case_setup(p):
         proof = dict(m4)[hap.T_PROOF]
         if fault == "m4-proof-bitflip":
             items = [(hap.T_STATE, b"\x04"), (hap.T_PROOF, _flip(proof, arg))]
+        elif fault == "m4-error-extra":
+            items = [(hap.T_STATE, b"\x04"), (hap.T_PROOF, proof), (hap.T_ERROR, bytes(arg))]
         elif fault == "m4-no-proof":
             items = [(hap.T_STATE, b"\x04")]
         elif fault == "m4-empty-proof":
@@ -247,11 +257,15 @@ def case_setup(p):
         wire = tlv8.encode(acc.m6(sub_override=lambda sub: [(t, sig if t == hap.T_SIG else v) for t, v in sub]))
     elif f == "m6-sig-trunc":
         wire = tlv8.encode(acc.m6(sub_override=lambda sub: [(t, v[:arg] if t == hap.T_SIG else v) for t, v in sub]))
+    elif f == "m6-error-extra":
+        wire = tlv8.encode(list(m6_honest_items) + [(hap.T_ERROR, bytes(arg))])
     elif f == "m6-no-enc":
         wire = tlv8.encode([(hap.T_STATE, b"\x06")])
     else:
         raise core.HarnessError(fault)
     verdict, presented = classify_m6(wire, acc, honest)
+    if f == "m6-error-extra":
+        verdict = "forged"  # the accessory flags an error: nothing may be returned, whatever else the reply carries
     p["_verdict"] = verdict
     st = run.feed(wire)
     det.update(verdict=verdict, outcome=st.label)
@@ -262,6 +276,8 @@ def case_setup(p):
     out = []
     if verdict == "honest":
         if st.kind != "return":
+            if CONFIGS[cfg].get("acc_id") is None and st.kind == "raise":
+                return []  # an identifier that is not text: failing (and returning nothing) is fine, returning a different identifier is not
             return [("honest-pairing-failed", det)]
         presented = (run.ident.id, run.ident.pk)
     if st.kind == "return":
@@ -270,7 +286,7 @@ def case_setup(p):
             ltsk = bytes.fromhex(r["iOSDeviceLTSK"])
             if C.ed_pub_bytes(C.ed_priv(ltsk)).hex() != r["iOSDeviceLTPK"]:
                 out.append(("returned-ltsk-ltpk-mismatch", det))
-            if presented and (r["AccessoryPairingID"].encode() != presented[0] or bytes.fromhex(r["AccessoryLTPK"]) != presented[1]):
+            if presented and (r["AccessoryPairingID"].encode("utf-8", "surrogateescape") != presented[0] or bytes.fromhex(r["AccessoryLTPK"]) != presented[1]):
                 out.append(("returned-accessory-identity-not-the-authenticated-one", det))
             if r["iOSPairingId"] != CONFIGS[cfg]["ios_id"]:
                 out.append(("returned-ios-pairing-id-differs", det))
@@ -316,6 +332,8 @@ def run(ctx):
         fl += [("m2-B-special", s) for s in ("zero", "N", "one", "short", "empty")]
         fl += [("m4-proof-bitflip", b) for b in bitsel(512)]
         fl += [("m4-no-proof", None), ("m4-empty-proof", None), ("m4-proof-is-m1", None), ("m4-proof-zero", None), ("m4-wrong-code-proof", None), ("m4-proof-of-other-exchange", None)]
+        errs = [b"\x00", b"\x01", b"\x02", b"\x08", b"\x12", b"\x42", b"\x82", b"\xff", b"", b"\x02\x00"]
+        fl += [(f"{m}-error-extra", e) for m in ("m2", "m4", "m6") for e in errs]
         fl += [("m4-proof-trunc", n) for n in (1, 32, 63)] + [("m4-proof-tail", n) for n in (1, 2, 32, 63)]
         fl += [("wrongcode", c) for c in ("111-22-334", "000-00-001", "11122333")]
         fl += [("m6-wire-bitflip", b) for b in bitsel(m6len * 8)]
@@ -331,7 +349,10 @@ def run(ctx):
             plist += [{"cfg": cfg, "style": style, "fault": f, "arg": a} for f, a in fl]
     # directed SRP boundary exchanges: honest run + one fault per stage (the value-level sweep is C02's; here the *use* of K, A, B, proofs in the protocol)
     seen_t = {}
-    for cfg in range(3, len(CONFIGS)):
+    for cfg in (3, 4):
+        for style in pairdrv.STYLES:
+            plist += [{"cfg": cfg, "style": style, "fault": "honest", "arg": None}]
+    for cfg in range(N_BASE, len(CONFIGS)):
         t = CONFIGS[cfg]["srp"]["target"]
         seen_t[t] = seen_t.get(t, 0) + 1
         if quick and seen_t[t] > 1:
@@ -343,5 +364,6 @@ def run(ctx):
     ctx.bounds.update(configs=len(cfgs), styles=list(pairdrv.STYLES), bits="one bit per byte (seed-selected)" if quick else "all bits")
     a = ctx.acc
     ctx.require(a.symbols["verdict:honest"] >= 2 * len(cfgs), "honest runs missing")
+    ctx.require(N_BASE == 5, "config numbering")
     ctx.require(a.symbols["verdict:forged"] >= 100, "too few forged M6")
     ctx.require(a.symbols["verdict:variant"] >= 1, "no authentic-variant M6 (other consistent identity)")
